@@ -798,19 +798,38 @@ func c20Workspace(c *core.C, idx int) {
 			files[f.WSPath()] = string(got)
 			vFmt.Sources[f.Path] = string(got)
 		}
-		deformat := c.Rand.IntN(3) == 0
+		mode := c.Rand.IntN(4)
+		deformat := mode == 0
 		if deformat {
 			f := vNew.Files[c.Rand.IntN(len(vNew.Files))]
 			text := strings.Replace(files[f.WSPath()], " = ", "   =  ", 1) + "\n\n"
 			files[f.WSPath()] = text
 			vFmt.Sources[f.Path] = text
 		}
+		crlf := mode == 1
+		if crlf {
+			// laid out exactly as the formatter would, but with CRLF line endings: the formatter writes LF, so
+			// there IS a difference (the ground truth below is a byte comparison), visible only in the line ends
+			f := vNew.Files[c.Rand.IntN(len(vNew.Files))]
+			if text := files[f.WSPath()]; !strings.Contains(text, "\r") {
+				text = strings.ReplaceAll(text, "\n", "\r\n")
+				files[f.WSPath()] = text
+				vFmt.Sources[f.Path] = text
+				c.Count("format_crlf_cases", 1)
+			} else {
+				crlf = false
+			}
+		}
 		if err := run.WriteTree(fmtDir, files); err == nil {
 			dFmt := diffOf(fmtDir, vFmt, "fmt")
 			spf := map[string][2]string{"cwd": {fmtDir, ""}, "relative": {parent, "fmt"}, "absolute": {base, fmtDir}}[sp.name]
 			saveCwd := sp.cwd
 			sp.cwd = spf[0]
-			formatBoth(map[bool]string{true: "deformatted", false: "formatted"}[deformat], dFmt, func(rest ...string) []string {
+			treeTag := map[bool]string{true: "deformatted", false: "formatted"}[deformat]
+			if crlf {
+				treeTag = "formatted-crlf"
+			}
+			formatBoth(treeTag, dFmt, func(rest ...string) []string {
 				args := []string{"format"}
 				if spf[1] != "" {
 					args = append(args, spf[1])
@@ -882,7 +901,7 @@ func init() {
 		Cases: func(tier string) int { return c20WorkspaceCases(tier) + c20OperationalCases(tier) },
 		Run:   c20Run,
 		Needs: []string{"buf"},
-		Required: []string{"build_nonempty", "build_empty", "lint_nonempty", "lint_empty", "breaking_nonempty", "breaking_empty", "format_diff_cases", "format_nodiff_cases",
+		Required: []string{"build_nonempty", "build_empty", "lint_nonempty", "lint_empty", "breaking_nonempty", "breaking_empty", "format_diff_cases", "format_nodiff_cases", "format_crlf_cases",
 			"compared_text", "compared_msvs", "compared_junit", "compared_github-actions", "compared_line_terminator_github-actions", "compared_line_terminator_junit",
 			"tuples_hostile_path", "tuples_hostile_message", "tuples_without_file", "tuples_line_terminator_in_path",
 			"status_0_runs", "status_100_runs", "status_other_runs", "subprocess_runs", "operational_runs", "lint_plants_reported"},
